@@ -311,3 +311,34 @@ theorem mem_of_lookup (l : AList κ α) (k : κ) (v : α) (h : lookup k l = some
     · simp only [hk, if_false] at h; exact List.mem_cons_of_mem _ (ih h)
 
 end Gin.AList
+
+namespace Gin.AList
+variable {κ α : Type} [DecidableEq κ]
+
+theorem keys_filter_sublist (f : κ × α → Bool) (l : AList κ α) :
+    (keys (l.filter f)).Sublist (keys l) :=
+  List.Sublist.map _ List.filter_sublist
+
+theorem lookup_filter (f : κ × α → Bool) (l : AList κ α) (h : (keys l).Nodup) (x : κ) :
+    lookup x (l.filter f) = (lookup x l).filter (fun v => f (x, v)) := by
+  induction l with
+  | nil => rfl
+  | cons y rest ih =>
+    obtain ⟨k, v⟩ := y
+    simp only [keys, List.map_cons, List.nodup_cons] at h
+    by_cases hk : k = x
+    · subst hk
+      by_cases hf : f (k, v) = true
+      · simp [List.filter, hf, lookup, Option.filter]
+      · have hf' : f (k, v) = false := by simpa using hf
+        simp only [List.filter, hf', lookup, if_true, Option.filter_some, Bool.false_eq_true, if_false]
+        have hnone := lookup_none_of_not_mem k rest h.1
+        have := ih h.2
+        simp only [hnone, Option.filter_none] at this
+        exact this
+    · by_cases hf : f (k, v) = true
+      · simp [List.filter, hf, lookup, hk, ih h.2]
+      · have hf' : f (k, v) = false := by simpa using hf
+        simp [List.filter, hf', lookup, hk, ih h.2]
+
+end Gin.AList
